@@ -25,7 +25,7 @@ ENTRY = dict(
                 "every enabled goroutine is eventually scheduled; on the implementation it is a deadline on every call."),
     technique="Lean 4 proof (inductive invariants over all schedules of a channel-level model) + actor differential with model replay + grammar on engine histories",
     lean_modules=["Bpmn.Props.C09", "Bpmn.Props.C09Current"],
-    families=["c09", "c09g"],
+    families=["c09", "c09g", "c09c"],
     exhaustive=False,
     rule=("c09: seeded plans of 1..8 sender goroutines (1..40 numbered traces each, thorough 1..120), 1..4 subscriber slots "
           "with 1..3 subscription episodes each (fresh channel, capacity in {0,1,2,3,5,10,64}, consumer pace 0..3, join at a "
@@ -38,7 +38,13 @@ ENTRY = dict(
           "end), and replays the operation sequence through Model.Tracer.step comparing what each episode received. "
           "c09g: the block-structured programs of C01's generator (two thirds) and loops around 3..7-way parallel forks "
           "(one third) on the real engine, every second case with the engine's schedule points perturbed; Spec.causal is "
-          "evaluated on the recorded trace stream (relayed sub-process traces handled explicitly). non-trivial = some "
+          "evaluated on the recorded trace stream (relayed sub-process traces handled explicitly). c09c: such programs "
+          "(and 2..5-way forks) with the instance context cancelled at a seeded moment - 0..300 us after a task was "
+          "answered (preferably the last pending one, whose token then runs to an end event), or with the flow.action "
+          "schedule point held so that the cancellation lands exactly between a flow taking its action and acting on it, "
+          "or under perturbation of all schedule points; recording continues until the tracer is done (3 s deadline) and "
+          "the grammar is evaluated including CancellationFlowTrace (nothing of a flow follows its termination or "
+          "cancellation trace). non-trivial = some "
           "episode received traces (c09) / the history contains a FlowTrace announcing a new flow (c09g); distinct by "
           "plan and recorded history"),
     trusted_base=TB_COMMON + ["whole-process quiescence detection via runtime.Stack goroutine states (c09g pacing)",
